@@ -123,8 +123,12 @@ void _GD_FreeE(DIRFILE *restrict D, gd_entry_t *restrict entry, int priv)
       break;
     case GD_SARRAY_ENTRY:
       if (priv) {
-        for (n = 0; n < entry->EN(scalar,array_len); ++n)
+        /* the storage may never have been allocated (failed gd_add) */
+        for (n = 0; entry->e->u.scalar.d && n < entry->EN(scalar,array_len);
+            ++n)
+        {
           free(((char **)entry->e->u.scalar.d)[n]);
+        }
         free(entry->e->u.scalar.d);
       }
       break;
